@@ -137,7 +137,7 @@ func init() {
 	vc.Register(&vc.Check{
 		ID:    "C03",
 		Level: "model_checking",
-		Rule: "histories: every sequence (length 3 quick; length 4 thorough; shorter ones are checked as prefixes) over an alphabet of claims that the local node 'a' has left -- leave intents by gossip (Delegate.NotifyMsg, Prune false/true), state-sync merges listing 'a' as left (Delegate.MergeRemoteState, join flag false/true), local RemoveFailedNode('a')/RemoveFailedNodePrune('a'), a real Serf.Join whose push/pull reply lists 'a' as left -- with Lamport times from {0, join-1, join, join+1, clock, clock+5, 2^40} resolved against the reference model's latest own join and the node's clock at the preceding quiescent point, interleaved with the node's own Serf.Join (in-memory push/pull responder), UserEvent and join intents about 'a' arriving by gossip; each history on a fresh real node, with and without a known alive peer; the oracle runs after every step (after the spawned refutation thread has run to completion); a state is the canonical private state (status, status times, clock relation, intents) after a history; non-trivial = history with at least one claim newer than the latest own join (a refutation was due). schedules: delay-bounded exploration (bound 2 quick, 3 thorough) of a network thread delivering two claims, a push/pull thread merging a third, and an application thread calling UserEvent and Join and reading LocalMember()/Members() in between, interleaved with the refutation threads serf spawns; same oracle at the end (and at every look of the application thread)",
+		Rule:  "histories: every sequence (length 3 quick; length 4 thorough; shorter ones are checked as prefixes) over an alphabet of claims that the local node 'a' has left -- leave intents by gossip (Delegate.NotifyMsg, Prune false/true), state-sync merges listing 'a' as left (Delegate.MergeRemoteState, join flag false/true), local RemoveFailedNode('a')/RemoveFailedNodePrune('a'), a real Serf.Join whose push/pull reply lists 'a' as left -- with Lamport times from {0, join-1, join, join+1, clock, clock+5, 2^40} resolved against the reference model's latest own join and the node's clock at the preceding quiescent point, interleaved with the node's own Serf.Join (in-memory push/pull responder), UserEvent and join intents about 'a' arriving by gossip; each history on a fresh real node, with and without a known alive peer; the oracle runs after every step (after the spawned refutation thread has run to completion); a state is the canonical private state (status, status times, clock relation, intents) after a history; non-trivial = history with at least one claim newer than the latest own join (a refutation was due). schedules: delay-bounded exploration (bound 2 quick, 3 thorough) of a network thread delivering two claims, a push/pull thread merging a third, and an application thread calling UserEvent and Join and reading LocalMember()/Members() in between, interleaved with the refutation threads serf spawns; same oracle at the end (and at every look of the application thread)",
 		Assumptions: []string{
 			"one node over an inert real memberlist; 'the member's own latest join' is the largest Lamport time of a join intent about itself that the node has put on its broadcast queue (0 before the first one); this coincides with its recorded status time",
 			"a claim needs no refutation when its time is <= the latest own join (that join already outranks it everywhere)",
